@@ -120,6 +120,7 @@ class Fam:
     """one program, its goals, its variants"""
     def __init__(self, prog, goals, goal_texts, kind):
         self.prog, self.goals, self.goal_texts, self.kind = prog, goals, goal_texts, kind
+        self.fixed = None
         self.variants = []          # texts
         self.answers = {}           # (variant idx, solver) -> [answers]
 
@@ -130,7 +131,21 @@ def gen_families(ctx):
     # the F16 witness and the other corpus programs of the fragment first
     for p, goals in pg.corpus():
         fams.append(Fam(p, goals, [pg.goal_text(g) for g in goals], "corpus"))
-    for _ in range(ctx.n(12, 140)):
+    # the witness of the in-query F7 order dependence (finding C13:F7q), with the order that shows it
+    S = [pg.adt("S%d" % i) for i in range(5)]
+    c0 = lambda t: ("C0", (t,))
+    p = pg.Prog([pg.Adt("S%d" % i) for i in range(5)], [pg.Trait("C0", 0, ("coinductive",))],
+                [pg.Impl(0, c0(S[4]), [c0(S[1])]), pg.Impl(0, c0(S[1]), [c0(S[2]), c0(S[1])]), pg.Impl(0, c0(S[3]), [c0(S[1])]),
+                 pg.Impl(0, c0(S[0]), [c0(S[4])]), pg.Impl(0, c0(S[2]), [c0(S[4]), c0(S[3])])], "corpus-F7q")
+    p.order = [("impl", 0), ("impl", 1), ("adt", 1), ("adt", 0), ("impl", 2), ("adt", 4), ("adt", 3), ("impl", 3), ("impl", 4), ("trait", 0), ("adt", 2)]
+    q = p.copy()
+    q.impls[1].wcs = [c0(S[1]), c0(S[2])]
+    q.order = [("impl", 0), ("adt", 1), ("adt", 3), ("adt", 4), ("impl", 2), ("trait", 0), ("impl", 1), ("adt", 2), ("impl", 4), ("impl", 3), ("adt", 0)]
+    goals = [("exists", (1,), ("atom", c0(pg.var(1)))), ("atom", c0(S[0])), ("atom", c0(S[2]))]
+    f = Fam(p, goals, [pg.goal_text(g) for g in goals], "corpus")
+    f.fixed = [q]
+    fams.append(f)
+    for _ in range(ctx.n(12, 110)):
         p = pg.gen_program(rng)
         gg = pg.GoalGen(rng, p)
         goals = [g for g in gg.goals(ctx.n(2, 3), ctx.n(2, 3), ctx.n(5, 6)) if not pg.is_floundering_prone(g)]
@@ -159,7 +174,7 @@ def run(ctx):
     thorough = not ctx.quick
     cases, meta = [], []
     for fi, f in enumerate(fams):
-        vs = impl_orders(f.prog, rng, thorough, ctx.n(2, 6))
+        vs = (f.fixed or []) + impl_orders(f.prog, rng, thorough, ctx.n(2, 6))
         base = text_of(f.prog)
         f.variants = [base] + [text_of(q) for q in vs if text_of(q) != base]
         for vi, t in enumerate(f.variants):
@@ -240,7 +255,9 @@ def run(ctx):
 
     known_hits = 0
     f1_hits = 0
+    f7q_hits = 0
     fidx = {id(f): i for i, f in enumerate(allf)}
+    rest = []
     for f, gi, sname, vi, a0, a1 in diffs:
         fi = fidx[id(f)]
         if sname == "slg" and in_class.get((fi, gi)):
@@ -255,6 +272,31 @@ def run(ctx):
                 ctx.known_finding(fk, f.goal_texts[gi])
                 f1_hits += 1
                 continue
+        rest.append((f, gi, sname, vi, a0, a1))
+    # the in-query F7 class (logic's predicate, needs candidate instantiations): only for the remaining SLG differences
+    f7q = {}
+    cand_items = [(fidx[id(f)], gi) for f, gi, sname, vi, a0, a1 in rest if sname == "slg" and (fidx[id(f)], gi) in in_class]
+    cand_items = list(dict.fromkeys(cand_items))
+    if cand_items:
+        cexprs = []
+        for fi, gi in cand_items:
+            f = fams[fi]
+            st = f.prog.symtab()
+            q, evars = pg.query_model(f.goals[gi], st)
+            univ = pg.universe(f.prog, depth=2, limit=8)
+            tuples = list(itertools.product(univ, repeat=len(evars)))[:60]
+            cands = [[pg.ty_model(t, st, lambda k: k) for t in tp] for tp in tuples]
+            cexprs.append((["P%d" % fi], logic.bb("f7q_query 200 P%d %s %s" % (fi, sx.to_coq(q), sx.to_coq(cands)))))
+        ccodes = eg.coq_codes_retry(ctx, "f7q", defs, cexprs, IMPORTS, ["Props/C13.vo"])
+        f7q = {k: (c == 1) for k, c in zip(cand_items, ccodes)}
+    for f, gi, sname, vi, a0, a1 in rest:
+        fi = fidx[id(f)]
+        if sname == "slg" and f7q.get((fi, gi)):
+            fk = ctx.match_known(None, "F7q")
+            if fk:
+                ctx.known_finding(fk, f.goal_texts[gi])
+                f7q_hits += 1
+                continue
         ctx.violation({"kind": "order-dependent-answer", "solver": sname, "program": f.variants[0], "permuted": f.variants[vi],
                        "goal": f.goal_texts[gi], "answer": canon_answer(a0), "answer_permuted": canon_answer(a1),
                        "f16_class": in_class.get((fi, gi)), "family": f.kind})
@@ -263,7 +305,7 @@ def run(ctx):
     ctx.cov["rule"] = ("evaluations = (program, permuted program, goal, solver) comparisons of real answers (fresh solver each); "
                        "non-trivial = not NoSolution on both sides; distinct by the two program texts, goal and solver")
     ctx.cov["input_distribution"] = {"families": dict(collections.Counter(f.kind for f in allf)), "variants_total": sum(len(f.variants) for f in allf),
-                                     "outcomes": dict(stats), "differences": len(diffs), "differences_in_known_class": known_hits, "differences_in_F1_class": f1_hits,
+                                     "outcomes": dict(stats), "differences": len(diffs), "differences_in_known_class": known_hits, "differences_in_F1_class": f1_hits, "differences_in_F7q_class": f7q_hits,
                                      "all_impl_orders_for_small_programs": thorough, "exhaustive_5_impl_programs": FULL5[0]}
     ctx.cov["known_class_share"] = round(n_class_pairs / total_slg, 4)
     ctx.cov["known_class_note"] = "share of SLG comparisons whose (program, goal) is in f16_class (whether or not the answers differ); %d of them differed" % known_hits
